@@ -320,6 +320,10 @@ def build ():
   mp_unknown = b"\x1e\x04\xf0\x00"
   for nm, opts in (("capable", mp_capable), ("join", mp_join), ("dss", mp_dss),
                    ("dss64", mp_dss64), ("unknown_x10", mp_unknown * 10),
+                   # field values of zero (an absent field is None, not 0)
+                   ("dss_zero", b"\x1e\x14\x20\x05" + struct.pack("!LLLHH", 0, 0, 0, 0, 0)),
+                   ("dss_ack0", b"\x1e\x08\x20\x01" + struct.pack("!L", 0)),
+                   ("dss_ack0_64", b"\x1e\x0c\x20\x03" + struct.pack("!Q", 0)),
                    ("unknown_1", mp_unknown), ("add_addr", b"\x1e\x08\x34\x01\x0a\0\0\x01"),
                    ("fastclose", b"\x1e\x0c\x70\x00" + b"\x33" * 8)):
     add("tcp_mptcp_" + nm, e(M2, M1, 0x0800, ip(IP1, IP2, 6, F.tcp(
